@@ -219,7 +219,8 @@ def gen(streams, tier, i):
                 items = render_items(wr, walk, edges, style)
                 if items is None:
                     items = render_items(wr, walk, edges, "alternating")
-            tags = wr.choice([[], ["xa:i:1"], ["xa:i:1", "xb:Z:q"]])
+            tags = wr.choice([[], ["xa:i:1"], ["xa:i:1", "xb:Z:q"], ["xc:A:c", "xd:f:1.5"], ["xe:H:0A", "xf:J:{}", "xg:B:c,-1,2"],
+                              ["xa:i:0", "xc:A:0"]])
             gl.append(("O", name, items, tags))
             groups.append({"rt": "O", "name": name, "expect": walk, "style": ("nested" + nested_info) if nested_info else style})
             walks[name] = walk
@@ -228,7 +229,7 @@ def gen(streams, tier, i):
             pool = segs + [e[0] for e in edges] + [g["name"] for g in groups if g["expect"] != "error"]
             items = [wr.choice(pool) for _ in range(wr.randint(1, 5))]
             items = [x for x in items if x != name]
-            gl.append(("U", name, items, wr.choice([[], ["xa:i:1"]])))
+            gl.append(("U", name, items, wr.choice([[], ["xa:i:1"], ["xc:A:c", "xf:J:[]"], ["xa:i:0", "xd:f:0.0"]])))
             groups.append({"rt": "U", "name": name, "expect": "set", "items": items})
     # split over 1-3 lines with the same identifier
     glines = []
